@@ -206,9 +206,8 @@ def model_check(chk, tier):
                     % (shape, v, nk, ops))
 
 
-def check(chk, tier, r, schedules):
+def prepare(chk, tier, r, schedules):
     """Model-check; record real runs on the schedules whose length fits a shape; validate (drift only)."""
-    model_check(chk, tier)
     by_len = {}
     for name, (n, m, *_rest) in SHAPES.items():
         by_len.setdefault(n * m, []).append(name)
@@ -227,6 +226,12 @@ def check(chk, tier, r, schedules):
                                      % (shape, json.dumps(ch)[:200], ops, why))
             else:
                 recs.append(rec)
+    return recs, raised
+
+
+def finish(chk, tier, recs, raised):
+    """Model-check and validate the recorded runs (TLC sub-processes only: may run in a worker thread)."""
+    model_check(chk, tier)
     shards = 8
     from concurrent.futures import ThreadPoolExecutor
     parts = [list(range(len(recs)))[k::shards] for k in range(shards)]
@@ -243,3 +248,8 @@ def check(chk, tier, r, schedules):
                 if len(chk.drift) < 10:
                     chk.drift.append("MultiSetEdit run not explained by MultiSet.tla: %s" % json.dumps(recs[j])[:600])
     chk.extra["multiset_runs_explained_by_MultiSet_tla"] = "%d of %d (%d raised or hung)" % (len(recs) - unexplained, len(recs), raised)
+
+
+def check(chk, tier, r, schedules):
+    recs, raised = prepare(chk, tier, r, schedules)
+    finish(chk, tier, recs, raised)
